@@ -602,6 +602,9 @@ def gen_c08(rng, quick=True):
         elif m == "lm":
             kwargs = {"method": m, "model_order": rng.choice([0, 0, 0, 2, 3]), "model_order_method": rng.choice(["matrix_rank", "pseudo_chisqr", "pseudo_chisqr"])}
             lm_low_noise = rng.random() < 0.6
+            if lm_low_noise:
+                n = rng.randint(15, 31)
+                logf = [5, -1]
         elif m == "bht":
             kwargs = {"method": m, "num_attempts": rng.randint(1, 3), "num_samples": 10,
                       "maximum_symmetry": rng.choice([0.5, 0.5, 0.2, 0.05]),
@@ -627,7 +630,7 @@ def gen_c08(rng, quick=True):
     wl["stochastic"] = stochastic
     wl["data"] = {
         "cdc": cdc, "logf": logf, "n": n,
-        "noise_pct": 0.01 if (kind == "drt" and wl["kwargs"].get("method") == "lm" and lm_low_noise) else rng.choice([0.0, 0.01, 0.1, 0.5]),
+        "noise_pct": rng.choice([0.005, 0.01, 0.02]) if (kind == "drt" and wl["kwargs"].get("method") == "lm" and lm_low_noise) else rng.choice([0.0, 0.01, 0.1, 0.5]),
         "noise_seed": rng.randrange(10**6), "mask": _masked(rng, n), "order": "desc",
     }
     return wl
